@@ -703,6 +703,10 @@ def scenario(rng, name, mods=None, nclients=None, cfg=None):
         ops.insert(rng.randint(header_len_ops(ops), len(ops)), "elapse")
         if rng.random() < 0.5:
             ops.append("elapse")
+    if rng.random() < 0.25:
+        # reports asked for in mid-history: they must not disturb anything
+        ops.insert(rng.randint(header_len_ops(ops), len(ops)), inl(rng.choice(["-1 ? :stats", "-1 ? :config", "-1 ? :stats"])))
+        ops = heal_splits(ops)
     if rng.random() < 0.5:
         ops.append(inl("-1 ? :stats"))
     if rng.random() < 0.2:
@@ -1253,7 +1257,7 @@ def _gen_cases(prop, tier, seed):
                                                                           "mods": base.tags["mods"]}))
                     base = Case(base.name, body0[:q] + body0[q + 1:], tags=dict(base.tags))
             elif i % 5 == 4:
-                base = reuse_scenario(rng, "c04/%d/base" % i, gap=(65536 if i == 4 or i % 1000 == 999 else 256 if i % 50 == 9 else None))
+                base = reuse_scenario(rng, "c04/%d/base" % i, gap=(65536 if i in (4, 14) or i % 1000 == 999 else 256 if i % 50 == 9 else None))
                 # the late answer is the stray line of this pair: base = the history without it
                 body0 = base.body()
                 lat = [q for q, l in enumerate(body0) if l.startswith("in ") and b"@T" in unhx(l.split(" ")[1])
@@ -1347,7 +1351,7 @@ def _gen_cases(prop, tier, seed):
                 ev.insert(rng.randint(1, len(ev)), ("split", text, len(tail_)))
                 scripts[a] = ev
             # C07 quantifies over clients on distinct ids whose own order is preserved
-            for k in range(2 if quick else 4):
+            for k in range((4 if i % 5 == 4 else 2) if quick else 4):
                 ops = header(mods, cfg) + render_schedule(rng, scripts) + ["eof"]
                 cases.append(Case("c07/%d/all%d" % (i, k), ops, tags={"group": "c07/%d" % i, "role": "all", "mods": mods}))
             if not cfg.timeout and not any(e[0] == "timeout" for ev in scripts.values() for e in ev):
@@ -1485,6 +1489,10 @@ def _gen_cases(prop, tier, seed):
                       ("line", "U user :real name"), ("line", "P :+x acct pass"), ("reply", "X", "login.srv", "OK acct", "cur"), ("line", "H")]
                 probe = {9: ev}
             pops = render_schedule(rng, probe) + [inl("-1 ? :config")]
+            if rng.random() < 0.5:
+                # a statistics request while the probe clients are under way (seeded change C17-9x9
+                # sorted the service table in place for the report)
+                pops.insert(rng.randint(0, len(pops) - 1), inl("-1 ? :stats"))
             pre = []
             if i % 6 == 5 and old.services:
                 # a client whose query is still unanswered when the reload arrives: the new file applies
@@ -1493,6 +1501,8 @@ def _gen_cases(prop, tier, seed):
                 pev = [("C", "10.9.9.9", "999"), ("line", "N wait.example"), ("line", "u ident"), ("line", "n waiter"),
                        ("line", "U waiter :still waiting"), ("line", "P :+x alice pw")]
                 pre = render_schedule(rng, {9: pev})
+                if rng.random() < 0.5:
+                    pre.append(inl("-1 ? :stats"))
                 # literal routing tags assume the serials of a run without the waiting client
                 probe = {cid: [e for e in ev if not (e[0] == "reply" and e[4] not in ("cur", "stale"))] for cid, ev in probe.items()}
                 pops = render_schedule(rng, probe) + [inl("-1 ? :config")]
@@ -1522,6 +1532,8 @@ def _gen_cases(prop, tier, seed):
                 data = [("line", "N host.example"), ("line", "u ident"), ("line", "n nick"), ("line", "U user :real name")]
                 pev = [("C", "10.9.9.9", "999")] + data + [("reply", "X", a_, "OK", "cur"), ("reply", "X", b_, "OK", "cur"), ("line", "H")]
                 pre = render_schedule(rng, {9: pev})
+                if rng.random() < 0.5:
+                    pre.append(inl("-1 ? :stats"))
                 probe = {}
                 for cid in rng.sample([1, 2, 5, 7], 2):
                     ev = [("C", rng.choice(CADDRS), "1234")] + data
@@ -1529,6 +1541,20 @@ def _gen_cases(prop, tier, seed):
                         ev.append(("reply", "x", n_, "unlinked", "cur") if rng.random() < 0.4 else ("reply", "X", n_, "OK", "cur"))
                     probe[cid] = ev + [("line", "H")]
                 pops = render_schedule(rng, probe) + [inl("-1 ? :config")]
+            if i % 12 == 7:
+                # a reload that puts a new service into a slot after one whose name sorts later, a
+                # client that waits for only one of them, a report in between, then the answer
+                # (seeded change C17-9x9 sorted the table in place for the statistics report)
+                mods = rng.choice(["xquery", "class"])
+                late_name, early_name = rng.choice([("m.srv", "a.srv"), ("zeta.srv", "alpha.srv"), ("drone.srv", "combo.srv")])
+                old = Cfg(timeout=0, services=[(late_name, "dronecheck")], rules=[("a", [("class", "cls-a")])] if mods == "class" else [])
+                new = Cfg(timeout=0, services=[(early_name, rng.choice(["login", "login-ipr"])), (late_name, "dronecheck")], rules=old.rules)
+                chain, pre = [new], []
+                ev = [("C", "1.2.3.4", "1234"), ("line", "N host.example"), ("line", "u ident"), ("line", "n nick"), ("line", "U user :real name")]
+                pops = render_schedule(rng, {5: ev}) + [inl("-1 ? :stats")] + render_schedule(rng, {5: [("reply", "X", late_name, "OK", "cur")]})
+                # the second schedule does not know the first one's serial: spell the tag out
+                pops[-1] = inl("-1 X %s %s :OK" % (late_name, sym_tag(5, 1, "5_1")))
+                pops += [inl("5 H"), inl("-1 ? :config")]
             cases.append(Case("c17/%d/reload" % i, header(mods, old) + pre + [c.op("reload") for c in chain] + pops + ["eof"],
                               tags={"group": "c17/%d" % i, "role": "reload", "mods": mods, "nreload": len(chain) + len(pre)}))
             cases.append(Case("c17/%d/fresh" % i, header(mods, new) + pops + ["eof"],
